@@ -113,6 +113,9 @@ class ThrottleExecutor(CanCustomizeBind, Executor):
         self._to_submit = deque()
         self._lock = Lock()
         self._event = get_event()
+        # Set whenever the submit thread takes jobs off the queue, to release a
+        # submit() blocked on a full queue (block=True)
+        self._unblock_event = get_event()
         self._running_count = AtomicInt()
         self._throttle = count if callable(count) else lambda: count
         self._last_throttle = self._throttle()
@@ -156,10 +159,13 @@ class ThrottleExecutor(CanCustomizeBind, Executor):
 
     def _block_until_ready(self, throttle_val):
         while self._block and not self._shutdown.is_shutdown:
+            # Only one submit() can be here at a time (we hold the shutdown gate),
+            # so clear / check / wait cannot lose a wake-up.
+            self._unblock_event.clear()
             if throttle_val is None or len(self._to_submit) < throttle_val:
                 return
             self._log.debug("%s: throttling on submit", self._name)
-            self._event.wait(30.0)
+            self._unblock_event.wait(30.0)
 
     def _eval_throttle(self):
         try:
@@ -187,6 +193,7 @@ class ThrottleExecutor(CanCustomizeBind, Executor):
             for job in self._to_submit:
                 if job.future is future:
                     self._to_submit.remove(job)
+                    self._unblock_event.set()
                     self._log.debug("Cancelled %s", job)
                     return True
         self._log.debug("Could not find for cancel: %s", future)
@@ -226,6 +233,10 @@ def _submit_loop_iter(executor):
         executor._log.debug(
             "Submitting %s, throttling %s", len(to_submit), len(executor._to_submit)
         )
+
+    if to_submit:
+        # the queue got shorter: a blocked submit() may proceed
+        executor._unblock_event.set()
 
     for job in to_submit:
         executor._do_submit(job)
